@@ -165,7 +165,20 @@ fn strip_world(label: &str) -> String {
 }
 
 fn base_of(class: &str) -> String {
-    strip_world(class.split(" | ").next().unwrap_or(class))
+    // "w0:Parameters#3/legacy | ..." -> "Parameters/legacy"
+    let b = strip_world(class.split(" | ").next().unwrap_or(class));
+    let mut out = String::new();
+    let mut chars = b.chars().peekable();
+    while let Some(c) = chars.next() {
+        if c == '#' {
+            while chars.peek().map(|d| d.is_ascii_digit()).unwrap_or(false) {
+                chars.next();
+            }
+        } else {
+            out.push(c);
+        }
+    }
+    out
 }
 
 fn clean_symbol(s: &str) -> String {
@@ -333,18 +346,17 @@ fn child_work(cfg: ChildCfg) {
     let mut hash_buf: Vec<u8> = vec![];
     for round in cfg.start.0..total_rounds {
         let items: Vec<Item> = if round == 0 {
-            corpus::structured_items(&corp, &entries, cfg.seed, cfg.tier)
-                .into_iter()
-                .enumerate()
-                .filter(|(i, _)| (*i as u64) % cfg.n_shards == cfg.shard)
-                .map(|(_, it)| it)
-                .collect()
+            let (items, total) = corpus::structured_items(&corp, &entries, cfg.seed, cfg.tier, cfg.shard, cfg.n_shards);
+            if cfg.start == (0, 0) {
+                rep.counters.insert("workload.structured_items_of_shard".into(), items.len() as u64);
+                if cfg.shard == 0 {
+                    rep.counters.insert("workload.structured_items_total".into(), total);
+                }
+            }
+            items
         } else {
             corpus::random_items(&corp, &entries, cfg.seed, cfg.tier, cfg.shard, round)
         };
-        if round == 0 && cfg.start == (0, 0) {
-            rep.counters.insert("workload.structured_items_of_shard".into(), items.len() as u64);
-        }
         for (idx, it) in items.iter().enumerate() {
             let idx = idx as u64;
             if (round, idx) < cfg.start {
@@ -483,8 +495,14 @@ fn crash_class(marker: &str, stderr: &str, status: &str) -> (String, Option<Stri
     if marker.contains("BIGALLOC") || stderr.contains("memory allocation of") {
         return ("allocation request above 1 GiB".into(), site);
     }
-    if stderr.contains("has overflowed its stack") || stderr.contains("stack overflow") {
+    if stderr.contains("has overflowed its stack") || stderr.contains("stack overflow") || stderr.contains("stack-overflow") {
         return ("stack overflow".into(), None);
+    }
+    // sanitizer builds: the report's headline is the failure class
+    if let Some(l) = stderr.lines().find(|l| l.contains("ERROR: AddressSanitizer") || l.contains("ERROR: LeakSanitizer")) {
+        let what = l.split("Sanitizer:").nth(1).unwrap_or("").trim();
+        let kind = what.split_whitespace().next().unwrap_or("report");
+        return (format!("AddressSanitizer {kind}"), None);
     }
     (status.to_string(), None)
 }
